@@ -190,8 +190,10 @@ PROPS = {
         level_text="(calls) the product call kind x request/reply message sequences (<=3 payloads of empty/1B/70kB) x metadata shapes (custom, binary, dsthost matching/not/twice) x backend outcomes x headers/trailers is executed through grpc.Server built from main.newGrpcProxy against instrumented TestService backends and compared for identity; no-route gives NotFound without contacting a backend. (histories) every history up to depth 3 (thorough 4) of {call A, call B, remove/add B, clean-up pass, restart B}: reuse of one connection per backend, drop after leaving the table, success after re-adding.",
         level_note="grpc-go's own goroutines are not under a scheduler: the property does not quantify over schedules. Asynchronous effects (connection closed at the backend) are awaited with a 10 s guard. TLS (grpcs) backends are not exercised.",
         units=[
-        unit("c16", ".", MAIN_COMMON + ["main/c16_test.go"], "^TestVerifC16", engines=["vhook"], rewrite=[{"files": ["proxy/grpc_handler.go"], "opts": ["-sel", "time.Sleep=vhook.Sleep"]}]),
-    ], layers={"quick": ["c16-calls", "c16-history"], "thorough": ["c16-calls", "c16-history"]}),
+        unit("c16", ".", MAIN_COMMON + ["main/c16_test.go"], "^TestVerifC16", engines=["vhook"], rewrite=[{"files": ["proxy/grpc_handler.go"], "opts": ["-sel", "time.Sleep=vhook.ScaledSleep", "-sel", "time.NewTicker=vhook.NewTicker", "-sel", "time.Tick=vhook.Tick", "-sel", "time.After=vhook.After", "-sel", "time.NewTimer=vhook.NewTimer", "-sel", "time.AfterFunc=vhook.AfterFunc"]}]),
+        unit("c16-pool", "proxy", PROXY_COMMON + ["proxy/c16_pool_test.go"], "^TestVerifC16Pool", engines=SCHED + ["vhook"], sched_env={"GOMAXPROCS": "1"}, shards={"quick": 1, "thorough": 8},
+             rewrite=[{"files": ["proxy/grpc_handler.go"], "opts": ["-imports", "-go", "-stmt", "-sortrange=p.connections", "-only", "newGrpcConnectionPool,Get,Set,newConnection,cleanup", "-sel", "time.Sleep=vhook.ScaledSleep"]}]),
+    ], layers={"quick": ["c16-calls", "c16-history", "c16-pool"], "thorough": ["c16-calls", "c16-history", "c16-pool"]}),
 }
 
 LAYER_UNIT = {"c06-sched": "c06", "c03-select": "c03", "c03-lookuphost": "c03", "c04-add": "c04", "c04-weightcmd": "c04", "c05-commands": "c05",
